@@ -133,6 +133,7 @@ func runC03(c *Ctx) {
 	// the Route hop is the first entry of what is left after the proxy's own entry was consumed: the consumption removes
 	// exactly one entry and nothing else of the route set (pop structure, shared with C13/C17)
 	checkPopOne(c, "destination", routePop)
+	ruleRouteSetEdits(c, "destination")
 	c18Pattern(c)
 	c18Table(c)
 	// "the next hop" includes its transport: a hop named with transport=tcp is not sent a datagram (shared with C02)
